@@ -75,9 +75,9 @@ ASSUMPTIONS = [
     "fragment groups in the real stratum are g consecutive *_picture_fragment symbols per picture (what "
     "make_picture_data_units produces); picture lists are of one kind, as the encoder produces them",
 ]
-CASE_TIMEOUT_S = 900
+CASE_TIMEOUT_S = 300
 SHARD_TIMEOUT_S = {"quick": 2400, "thorough": 6 * 3600}
-STEP_BUDGET = 4_000_000_000
+STEP_BUDGET = 100_000_000
 
 _AUTOS = {}
 
@@ -166,7 +166,9 @@ def plan(tier, seed):
     n_extra = len([1 for o in G.source_patterns().values() if any("test_cases" in x for x in o)])
     for text, lvls in _distinct_level_texts():
         for e in range(n_extra + 1):
-            cases.append({"kind": "real", "levels": lvls, "extra": e, "pics": p["real_pics"], "groups": p["frag_groups"], "w": nlists * 150.0})
+            for lo in range(0, nlists, 5):
+                cases.append({"kind": "real", "levels": lvls, "extra": e, "pics": p["real_pics"], "groups": p["frag_groups"],
+                              "lo": lo, "hi": min(nlists, lo + 5), "w": 5 * 150.0})
     order = sorted(range(len(cases)), key=lambda i: (-cases[i]["w"], i))
     nsh = p["nshards"]
     shards = [{"shard": s, "cases": []} for s in range(nsh)]
@@ -371,7 +373,8 @@ def _run_case(case, ctx):
             return
         extra = ([None] + extras)[case["extra"]] if case["extra"] <= len(extras) else None
         pats = [generic[0], texts.pop()] + ([extra] if extra else [])
-        for req in _real_picture_lists(case["pics"], case["groups"]):
+        lists = _real_picture_lists(case["pics"], case["groups"])
+        for req in lists[case.get("lo", 0) : case.get("hi", len(lists))]:
             _judge(ctx, req, pats, None, REAL_PRIORITY, "real")
         for l in lvls:
             ctx.note("levels", l)
